@@ -120,8 +120,9 @@ package common
 //@ end
 // names of the two ConfigMaps of a fraction container (functions of the pod's runai/shared-gpu-configmap annotation
 // and the container reference): <prefix>-<index> (capabilities) and <prefix>-<index>-evar (direct env vars)
-//@ define capName(pod *v1.Pod, ref *gpusharingconfigmap.PodContainerRef) string = tuple0(gpusharingconfigmap.ExtractCapabilitiesConfigMapName(pod, ref))
-//@ define envName(pod *v1.Pod, ref *gpusharingconfigmap.PodContainerRef) string = tuple0(gpusharingconfigmap.ExtractDirectEnvVarsConfigMapName(pod, ref))
+// (gpusharingconfigmap.capCMName / envCMName: the ONE naming function admission and binder are proved against, C19)
+//@ define capName(pod *v1.Pod, ref *gpusharingconfigmap.PodContainerRef) string = gpusharingconfigmap.capCMName(gpusharingconfigmap.cmPrefix(pod), ref.Type, ref.Index)
+//@ define envName(pod *v1.Pod, ref *gpusharingconfigmap.PodContainerRef) string = gpusharingconfigmap.envCMName(gpusharingconfigmap.cmPrefix(pod), ref.Type, ref.Index)
 //@ define capKey(pod *v1.Pod, ref *gpusharingconfigmap.PodContainerRef) string = gpusharingconfigmap.cmKey(pod.Namespace, capName(pod, ref))
 //@ define envKey(pod *v1.Pod, ref *gpusharingconfigmap.PodContainerRef) string = gpusharingconfigmap.cmKey(pod.Namespace, envName(pod, ref))
 
